@@ -93,7 +93,29 @@ fn probe_ro<S: Surface<Item = i64>>(s: &S) -> Value {
     let iter: Vec<i64> = s.iter().copied().collect();
     let gets: Vec<i64> = (0..(h + 1) * (w + 1)).map(|n| s.get(Position::new(n / (w + 1), n % (w + 1))).copied().unwrap_or(-1)).collect();
     let map: Vec<i64> = s.map(|_, x| 2 * *x + 1).iter().copied().collect();
-    json!({"h": h, "w": w, "iter": iter, "gets": gets, "map": map})
+    // an iterator advanced by k single steps and then consumed by internal iteration (for_each / count / last are
+    // built on fold), and nth(k) on a fresh one
+    let ks: Vec<usize> = (0..=iter.len().min(13)).collect();
+    let mut rest = Vec::new();
+    let mut counts = Vec::new();
+    let mut lasts = Vec::new();
+    let mut nths = Vec::new();
+    for k in ks.iter().copied() {
+        let adv = |k: usize| {
+            let mut it = s.iter();
+            for _ in 0..k {
+                it.next();
+            }
+            it
+        };
+        let mut r: Vec<i64> = Vec::new();
+        adv(k).for_each(|x| r.push(*x));
+        rest.push(r);
+        counts.push(adv(k).count());
+        lasts.push(adv(k).last().copied().unwrap_or(-1));
+        nths.push(s.iter().nth(k).copied().unwrap_or(-1));
+    }
+    json!({"h": h, "w": w, "iter": iter, "gets": gets, "map": map, "rest": rest, "counts": counts, "lasts": lasts, "nths": nths})
 }
 
 fn probe_mut<S: SurfaceMut<Item = i64>>(s: &mut S, op: Op) -> Value {
@@ -263,7 +285,7 @@ pub fn replay() {
                 }
                 Err(m) => {
                     let mut r = serde_json::Map::new();
-                    for k in ["iter", "gets", "map", "addrs", "fill", "clear", "fillwith", "sets", "inserts"] {
+                    for k in ["iter", "gets", "map", "rest", "counts", "lasts", "nths", "addrs", "fill", "clear", "fillwith", "sets", "inserts"] {
                         r.insert(k.into(), json!([]));
                     }
                     r.insert("h".into(), json!(0));
